@@ -82,6 +82,12 @@ class PE:
                 return ('F', e.id)           # a builtin used as a value (`choose = max if ... else min`)
             raise Untranslatable('unknown name %s' % e.id)
         if isinstance(e, ast.Attribute):
+            try:
+                dotted = ast.unparse(e)
+            except Exception:
+                dotted = None
+            if dotted in self.consts:
+                return C(self.consts[dotted])
             if isinstance(e.value, ast.Name) and e.value.id == 'np':
                 raise Untranslatable('numpy attribute %s' % e.attr)
             base = self.ev(e.value)
@@ -121,15 +127,18 @@ class PE:
                 if isinstance(e.op, ast.Add): return C(int(a[1]) + int(b[1]))
                 if isinstance(e.op, ast.Sub): return C(int(a[1]) - int(b[1]))
                 if isinstance(e.op, ast.Mult): return C(int(a[1]) * int(b[1]))
+            if isinstance(e.op, ast.LShift) and is_const(a) and a[1] == 1:
+                # `1 << k` (Python raises for a negative k; the callers only shift by n_word or n_word-1 with n_word >= 1)
+                return ('I', '((2 : Int) ^ (%s).toNat)' % to_lean_int(b))
             op = {ast.Add: '+', ast.Sub: '-', ast.Mult: '*'}.get(type(e.op))
             if op is None:
                 raise Untranslatable('binary operator %s' % type(e.op).__name__)
             return ('I', '(%s %s %s)' % (to_lean_int(a), op, to_lean_int(b)))
         if isinstance(e, ast.BoolOp):
-            vals = [self.ev(v) for v in e.values]
             isand = isinstance(e.op, ast.And)
             out = []
-            for v in vals:                      # Python's or/and on booleans
+            for sub in e.values:                # Python's or/and on booleans, left to right with short circuit
+                v = self.ev(sub)
                 if is_const(v) and isinstance(v[1], bool):
                     if v[1] == (not isand):     # True in an `or`, False in an `and`: decides (later operands are pure)
                         out.append(v); break
@@ -194,6 +203,12 @@ class PE:
                 self.env[var] = saved
             return ('L', out)
         if isinstance(e, ast.Call):
+            try:
+                txt = ast.unparse(e)
+            except Exception:
+                txt = None
+            if txt in self.consts.get('__patterns__', {}):
+                return self.consts['__patterns__'][txt]
             return self.call(e)
         raise Untranslatable('expression %s' % type(e).__name__)
 
@@ -357,16 +372,17 @@ class PE:
                         self.poison(st)
                     continue
                 if is_const(t):
-                    r = self.run(st.body if t[1] else st.orelse, lenient=True)
-                    if r is not None:
-                        return r
-                    continue
+                    return self.run(list(st.body if t[1] else st.orelse) + stmts[i + 1:], lenient=True)
+                if not any((isinstance(n, ast.Name) and isinstance(n.ctx, ast.Store)) or isinstance(n, ast.Return) for n in ast.walk(st)):
+                    continue        # the branch only writes attributes / items of objects: no effect on the rules read here
                 rest = stmts[i + 1:]
                 a = self.fork(); ra = a.run(list(st.body) + rest, lenient=True)
                 b = self.fork(); rb = b.run(list(st.orelse) + rest, lenient=True)
                 if ra is None or rb is None:
                     raise Untranslatable('a symbolic branch without a result on both sides (line %d)' % st.lineno)
                 return self.ite(t, ra, rb)
+            elif lenient and isinstance(st, ast.Return) and getattr(st, '_synthetic', False):
+                return self.ev(st.value)
             elif lenient and isinstance(st, ast.Return):
                 # the wrapper call: the operator's rule is its `optimal_size=` argument
                 if isinstance(st.value, ast.Call):
@@ -380,10 +396,7 @@ class PE:
             elif isinstance(st, ast.If):
                 t = self.ev(st.test)
                 if is_const(t):
-                    r = self.run(st.body if t[1] else st.orelse)
-                    if r is not None:
-                        return r
-                    continue
+                    return self.run(list(st.body if t[1] else st.orelse) + stmts[i + 1:])
                 # symbolic test: both continuations are evaluated (they are pure) and merged
                 rest = stmts[i + 1:]
                 a = self.fork(); ra = a.run(list(st.body) + rest)
@@ -532,6 +545,108 @@ def generate(repo=None):
                         "`functions._get_sizing([x, y], sizing='%s', method='raw'%s)`: (signed, n_word, n_int, n_frac)"
                         % (pol, ', optimal_size=(osg, owd, oin, ofr)' if pol == 'optimal' else ''))
         attempt('getSizing_' + pol, f)
+
+    # ------------------------------------------------------------------------------------------ objects.py
+    try:
+        otree = ast.parse(open(os.path.join(repo, 'fxpmath', 'objects.py')).read())
+        cls = next(n for n in otree.body if isinstance(n, ast.ClassDef) and n.name == 'Fxp')
+        meth = {n.name: n for n in cls.body if isinstance(n, ast.FunctionDef)}
+    except Exception as e:
+        otree, meth = None, {}
+        problems['objects.py'] = '%s: %s' % (type(e).__name__, e)
+
+    def names_after(body, names):
+        """the statements of `body` followed by a synthetic `return (names...)`."""
+        r = ast.Return(value=ast.Tuple(elts=[ast.Name(id=n, ctx=ast.Load()) for n in names], ctx=ast.Load()))
+        r._synthetic = True
+        r.lineno = 0
+        return list(body) + [r]
+
+    def flimits(method, names, lean_name, doc):
+        def f():
+            if method not in meth:
+                raise Untranslatable('Fxp.%s not found' % method)
+            node = meth[method]
+            # the slice: every statement up to (and including) the last one that assigns one of the names
+            last = max((i for i, st in enumerate(node.body) if any(isinstance(n, ast.Name) and isinstance(n.ctx, ast.Store) and n.id in names
+                                                                       for n in ast.walk(st))), default=None)
+            if last is None:
+                raise Untranslatable('%s not assigned in Fxp.%s' % (names, method))
+            pe = PE({'self': ('O', 'x')}, consts, funcs)
+            r = pe.run(names_after(node.body[:last + 1], names), lenient=True)
+            if r is None:
+                raise Untranslatable('no value')
+            return emit(lean_name, '(xs : Bool) (xw xi xf : Int)', pe, r, doc)
+        attempt(lean_name, f)
+
+    if meth:
+        flimits('set_val', ['val_max', 'val_min'], 'storeLimits', '`(val_max, val_min)` of `Fxp.set_val` (the limits every store is clamped / wrapped to)')
+        flimits('resize', ['upper_val', 'lower_val'], 'resizeLimits', '`(upper_val, lower_val)` of `Fxp.resize` (the limits reported as upper / lower)')
+
+        def fnint():
+            node = meth.get('resize')
+            if node is None:
+                raise Untranslatable('Fxp.resize not found')
+            for st in ast.walk(node):
+                if isinstance(st, ast.Assign) and len(st.targets) == 1 and isinstance(st.targets[0], ast.Attribute) \
+                        and ast.unparse(st.targets[0]) == 'self.n_int':
+                    pe = PE({'self': ('O', 'x')}, consts, funcs)
+                    return emit('nintOf', '(xs : Bool) (xw xi xf : Int)', pe, pe.ev(st.value), '`self.n_int = ...` of `Fxp.resize`')
+            raise Untranslatable('self.n_int is not assigned in resize')
+        attempt('nintOf', fnint)
+
+        def fext():
+            node = meth.get('resize')
+            if node is None:
+                raise Untranslatable('Fxp.resize not found')
+            for st in ast.walk(node):
+                if isinstance(st, ast.If) and len(st.body) == 1 and isinstance(st.body[0], ast.Assign) \
+                        and ast.unparse(st.body[0].targets[0]) == "self.status['extended_prec']" and isinstance(st.body[0].value, ast.Constant) \
+                        and st.body[0].value.value is True and len(st.orelse) == 1 and isinstance(st.orelse[0], ast.Assign) \
+                        and ast.unparse(st.orelse[0].targets[0]) == "self.status['extended_prec']" and st.orelse[0].value.value is False:
+                    pe = PE({'self': ('O', 'x')}, consts, funcs)
+                    return emit('extendedPrec', '(xs : Bool) (xw xi xf : Int)', pe, pe.ev(st.test), "the condition under which `Fxp.resize` sets `status['extended_prec']`")
+                if isinstance(st, ast.Assign) and len(st.targets) == 1 and ast.unparse(st.targets[0]) == "self.status['extended_prec']":
+                    pe = PE({'self': ('O', 'x')}, consts, funcs)
+                    v = pe.ev(st.value)
+                    if v[0] == 'B':
+                        return emit('extendedPrec', '(xs : Bool) (xw xi xf : Int)', pe, v, "the value `Fxp.resize` assigns to `status['extended_prec']`")
+            raise Untranslatable("the assignment of status['extended_prec'] in resize was not recognised")
+        attempt('extendedPrec', fext)
+
+        def frshift():
+            node = meth.get('__rshift__')
+            if node is None:
+                raise Untranslatable('Fxp.__rshift__ not found')
+            c2 = dict(consts); c2['self.config.shifting'] = 'expand'
+            # `utils.min_pow2(self.val)`: None when every code is zero, else the common number of trailing zeros (hasmp / mp)
+            c2['__patterns__'] = {'utils.min_pow2(self.val)': ('MP', None)}
+            pe = PE({'self': ('O', 'x'), node.args.args[1].arg: ('I', 'n')}, c2, funcs)
+            outs = []
+            for has in (True, False):
+                pe2 = PE({'self': ('O', 'x'), node.args.args[1].arg: ('I', 'n')}, dict(c2, __patterns__={'utils.min_pow2(self.val)': (('I', 'mp') if has else C(None))}), funcs, pe.shared)
+                r = pe2.run(names_after([st for st in node.body if not isinstance(st, ast.Return)], ['n_frac_expansion']), lenient=True)
+                if r is None or r[0] != 'T':
+                    raise Untranslatable('n_frac_expansion not found')
+                outs.append(r[1][0])
+            res = pe.ite(('B', 'hasmp'), outs[0], outs[1])
+            return emit('rshiftExpansion', '(n mp : Int) (hasmp : Bool)', pe, res,
+                        '`n_frac_expansion` of `Fxp.__rshift__` in expand mode (`mp` = `utils.min_pow2(self.val)` when it is not None)')
+        attempt('rshiftExpansion', frshift)
+
+        def flshift():
+            node = meth.get('__lshift__')
+            if node is None:
+                raise Untranslatable('Fxp.__lshift__ not found')
+            c2 = dict(consts); c2['self.config.shifting'] = 'expand'
+            c2['__patterns__'] = {'int(np.max(np.ceil(np.log2(np.abs(self.val) + 0.5))))': ('I', 'mb')}
+            pe = PE({'self': ('O', 'x'), node.args.args[1].arg: ('I', 'n')}, c2, funcs)
+            r = pe.run(names_after(node.body[:1], ['n_word']), lenient=True)
+            if r is None or r[0] != 'T':
+                raise Untranslatable('n_word not found')
+            return emit('lshiftWord', '(xs : Bool) (xw xi xf : Int) (mb n : Int)', pe, r[1][0],
+                        '`n_word` of `Fxp.__lshift__` in expand mode (`mb` = the largest `ceil(log2(|code| + 0.5))` over the codes)')
+        attempt('lshiftWord', flshift)
 
     head = ('import FxpVerif.Model.Reduce\n'
             '/-! # GENERATED by harness/srcgen.py from fxpmath/functions.py — do not edit\n'
